@@ -27,8 +27,9 @@ type c08Case struct {
 
 func init() {
 	mc.Register(&mc.Property{
-		ID:    "C08",
-		Level: "exploration",
+		ID:     "C08",
+		Word32: true,
+		Level:  "exploration",
 		Rule: "E1 bounded-exhaustive enumeration, per width n in {1,2,4,8}: (split) every string of length ≤2 over all 256 byte values and of length ≤L over {00,01,7f,80,ff,a5,5a,'a'}: FromStr length and every word, Get at every index, ToStr∘FromStr; " +
 			"(pack) ToStr on every list of in-range words up to a width-dependent length (every partial-last-byte shape); (diff) FirstDiff on every ordered pair of strings of length ≤D over 6 bytes × every from in [0, words+2] × every end in [-1, words+2]; (diff, far windows) the same pairs with from and/or end far beyond both strings: 2^31, 2^32, 2^60, 2^61, 2^62, 3·2^61 (each ±1), MaxInt-1, MaxInt - every from in [0, words+2] ∪ far × every far end, and every far from × every end in [-1, words+2]; (diff, long) FirstDiff on every ordered pair of 48 strings of 8..19 bytes (4 stem variants × 3 tails) and on single-byte flips of bases of EVERY length 1..40 at every byte position × every from × 7 ends; (big) strings of 2^8, 2^12, 2^16 (±1) bytes: FromStr/ToStr/Get and FirstDiff against copies with one flipped byte; (lists) FromStrs/ToStrs element-wise (and the FromStrs elements once more after appending a byte to each: results must not alias each other) on every list of ≤3 strings over 4 strings. " +
 			"Oracle: the string's '0'/'1' rendering cut into n-bit groups. A case is one call; non-trivial when the string/list is non-empty.",
